@@ -73,7 +73,8 @@ pub enum Ev {
     Inject,
     TaskOk,
     TaskErr,
-    Status(Option<u8>),
+    /// query_status on the leader; the two peer shards answer with these statuses (None: they agree)
+    Status(Option<u8>, Option<u8>),
     ShardStatus(u8),
     Complete(bool),
     PollComplete,
@@ -161,10 +162,14 @@ impl M {
         if self.has_sender && self.sent.is_none() {
             v.extend([Ev::TaskOk, Ev::TaskErr]);
         }
-        v.push(Ev::Status(None));
+        v.push(Ev::Status(None, None));
         if view.leader() {
-            for s in 0..5 {
-                v.push(Ev::Status(Some(s)));
+            for a in 0..6u8 {
+                for b in 0..6u8 {
+                    if a + b > 0 {
+                        v.push(Ev::Status(a.checked_sub(1), b.checked_sub(1)));
+                    }
+                }
             }
         } else {
             for s in 0..5 {
@@ -276,7 +281,7 @@ impl M {
                 self.sent = Some(ev == Ev::TaskOk);
                 "-".into()
             }
-            Ev::Status(other) => {
+            Ev::Status(o1, o2) => {
                 if !leader {
                     return "Err:NotLeader".into();
                 }
@@ -284,11 +289,12 @@ impl M {
                 match self.status() {
                     None => "Err:NoSuchQuery".into(),
                     Some(s) => {
-                        let r = match other {
-                            Some(o) => STATUSES[Self::rank(s).min(o as usize)],
-                            None => s,
-                        };
-                        format!("Ok:{r:?}")
+                        // the least advanced status among the shards
+                        let mut rank = Self::rank(s);
+                        for o in [o1, o2].into_iter().flatten() {
+                            rank = rank.min(o as usize);
+                        }
+                        format!("Ok:{:?}", STATUSES[rank])
                     }
                 }
             }
@@ -381,7 +387,8 @@ impl M {
 struct Script {
     h3_rejects: bool,
     shard_prepare_ok: bool,
-    shard_status: Option<QueryStatus>,
+    /// answers of shards 1 and 2 to a status comparison (None: agree)
+    shard_status: [Option<QueryStatus>; 2],
     shard_complete_ok: bool,
 }
 
@@ -452,15 +459,16 @@ impl Sys {
             Some(HandlerBox::owning_ref(&handlers[2])),
         ]);
         let sscript = StdArc::clone(&script);
-        let (shard_net, shard_handlers) = InMemoryShardNetwork::with_shards_and_handlers(2u32, move |_si| {
+        let (shard_net, shard_handlers) = InMemoryShardNetwork::with_shards_and_handlers(3u32, move |si| {
             let script = StdArc::clone(&sscript);
+            let peer = (usize::from(si)).saturating_sub(1).min(1);
             make_owned_handler(move |addr, _| {
                 let script = StdArc::clone(&script);
                 async move {
                     let s = script.lock().unwrap();
                     match addr.route {
                         RouteId::PrepareQuery if !s.shard_prepare_ok => Err(ApiError::QueryPrepare(PrepareQueryError::AlreadyRunning)),
-                        RouteId::QueryStatus => match s.shard_status {
+                        RouteId::QueryStatus => match s.shard_status[peer] {
                             Some(st) => Err(ApiError::QueryStatus(QueryStatusError::DifferentStatus {
                                 query_id: QueryId,
                                 my_status: st,
@@ -578,11 +586,11 @@ impl Sys {
                 let _ = self.sender.take().unwrap().send(Err(ProtocolError::Internal));
                 "-".into()
             }
-            Ev::Status(other) => {
-                self.script.lock().unwrap().shard_status = other.map(|o| STATUSES[o as usize]);
+            Ev::Status(o1, o2) => {
+                self.script.lock().unwrap().shard_status = [o1.map(|o| STATUSES[o as usize]), o2.map(|o| STATUSES[o as usize])];
                 let mut fut: BoxFut<_> = Box::pin(p.query_status(self.shard.clone_ref(), QueryId));
                 let r = settle(&mut fut).await;
-                self.script.lock().unwrap().shard_status = None;
+                self.script.lock().unwrap().shard_status = [None, None];
                 match r {
                     None => "Pending".into(),
                     Some(Ok(s)) => format!("Ok:{s:?}"),
@@ -734,15 +742,20 @@ fn ev_json(h: &[Ev]) -> Vec<String> {
 
 fn parse_ev(s: &str) -> Ev {
     let all = {
-        let mut v = vec![Ev::NewStart, Ev::PrepShard, Ev::ReceiveInputs, Ev::Inject, Ev::TaskOk, Ev::TaskErr, Ev::PollComplete, Ev::Kill, Ev::Status(None), Ev::PollZombie, Ev::ZombieTask(true), Ev::ZombieTask(false)];
+        let mut v = vec![Ev::NewStart, Ev::PrepShard, Ev::ReceiveInputs, Ev::Inject, Ev::TaskOk, Ev::TaskErr, Ev::PollComplete, Ev::Kill, Ev::PollZombie, Ev::ZombieTask(true), Ev::ZombieTask(false)];
         for b in [true, false] {
             v.extend([Ev::PrepHelper(b), Ev::Complete(b)]);
         }
         for x in [Verdict::Ok, Verdict::H3Rejects, Verdict::ShardRejects] {
             v.push(Ev::NewFinish(x));
         }
+        for a in 0..6u8 {
+            for b in 0..6u8 {
+                v.push(Ev::Status(a.checked_sub(1), b.checked_sub(1)));
+            }
+        }
         for i in 0..5 {
-            v.extend([Ev::Status(Some(i)), Ev::ShardStatus(i)]);
+            v.push(Ev::ShardStatus(i));
         }
         v
     };
